@@ -224,7 +224,7 @@ def run(ctx, out):
                 'edited (tag changed / removed / replaced by list, dict, None, float; keys added), arbitrary. The result or error is compared '
                 'with the declared variant run alone on the body; absent/unknown/ill-kinded tags must give a ConvertError naming the tag; '
                 'into_data must write the layout and parse back. Duplicate tags must be refused at build time.')
-    convprop.run(ctx, out, PROP, monitor, cfg={'weights': {'tagged': 12.0}})
+    convprop.run(ctx, out, PROP, monitor, cfg={'weights': {'tagged': 12.0}}, extra_cases=lambda rng: convprop.cases_from_pairs(gen.tagged_shape_cases(rng), rng, 'tagged-shapes'))
     dup_tag_check(out)
     out.evaluations += serialised_values_are_independent(out)
 
